@@ -236,6 +236,7 @@ type State struct {
 	facts    []string
 	defers   []deferred
 	ghost    map[string]Term
+	fieldWB  []fieldWriteBack // pending write-backs of &x.f call arguments
 	alias    map[types.Object]*aliasOrigin
 	freshSl  map[types.Object]bool
 	rets     []Term
@@ -330,6 +331,7 @@ type VC struct {
 	havocKnown  map[string]map[string]bool
 	abstracted  []string // callees without contract (abstracted by havoc)
 	curProp     string // property being checked ("": all clauses)
+	constructing []string // terms of parameters the caller guarantees to be fresh, unshared objects (requires callerfresh(p))
 	addrTaken   map[types.Object]bool // locals whose address is taken (kept in a cell from their first assignment)
 	boundAssume []string // size bounds assumed by the bounded counterexample search
 	unroll      int      // >0: counterexample search mode (loops unrolled, never used for proofs)
